@@ -115,6 +115,9 @@ def random_spec(r):
     nyq = rate / 2
     lo = r.choice([0.0, 0.0, 20.0, 20.0, 100.0, 300.0, round(r.uniform(0, nyq / 3), 2)])
     hi = r.choice([None, None, nyq, float(int(nyq)), nyq * 0.75, round(r.uniform(lo + nyq / 4, nyq), 2)])
+    if kind == "tri" and r.random() < 0.15:
+        # the triangular bank accepts high_hz up to 1 Hz above the Nyquist frequency (and clamps it)
+        hi = nyq + r.choice([1.0, 0.5, round(r.uniform(0.0, 1.0), 3)])
     if kind != "tri" and hi is not None and hi > rate // 2:
         hi = float(rate // 2)
     if hi is not None and hi <= lo:
@@ -161,6 +164,12 @@ FIXED_SPECS = [
     dict(kind="tri", rate=16000, low_hz=20.0, high_hz=None, num_filts=40, scale=dict(name="mel"), analytic=False),
     dict(kind="fbank", rate=16000, low_hz=20.0, high_hz=None, num_filts=40, analytic=False),
     dict(kind="fbank", rate=8000, low_hz=0.0, high_hz=4000.0, num_filts=1, analytic=True),
+    # high_hz within 1 Hz above the Nyquist frequency (accepted, clamped), with odd widths that have a bin between the
+    # Nyquist frequency and high_hz (width > rate / (2 (high - nyq)))
+    dict(kind="tri", rate=100, low_hz=5.0, high_hz=51.0, num_filts=3, scale=dict(name="linear", low_hz=0.0, slope_hz=1.0),
+         analytic=False, widths=[51, 53, 101, 64, 201]),
+    dict(kind="tri", rate=100, low_hz=5.0, high_hz=50.5, num_filts=4, scale=dict(name="mel"), analytic=True, widths=[101, 103, 128, 257]),
+    dict(kind="tri", rate=8000, low_hz=20.0, high_hz=4001.0, num_filts=6, scale=dict(name="mel"), analytic=False, widths=[4001, 4003, 8193], filts=[5, 4]),
     # an edge exactly on a bin frequency at a fractional sampling rate (finding: float-unsafe asserts raised)
     dict(kind="tri", rate=13101.77, low_hz=300.0, high_hz=6550.885, num_filts=5, scale=dict(name="linear", low_hz=300.0, slope_hz=1.0),
          analytic=False, widths=[6, 12, 18], filts=[4]),
